@@ -119,6 +119,9 @@ def check(prop, tier, replay_case=None, replay_config=None):
                 specs.append({"prop": prop, "tier": tier, "seed": seed, "shard": i, "nshards": n, "config": c,
                               "so": so["ovf" if c == "ovf" else "rel"],
                               "out": os.path.join(outdir, f"{c}-{i:03d}.json")})
+                if plan.get("decimal_prec"):
+                    # precision of the process-wide decimal context of the shard (decimal.getcontext().prec)
+                    specs[-1]["decimal_prec"] = plan["decimal_prec"][i % len(plan["decimal_prec"])]
                 if plan.get("week_start"):
                     # pendulum's own process-wide week configuration of the shard (week_starts_at / week_ends_at)
                     specs[-1]["week_start"] = plan["week_start"][i % len(plan["week_start"])]
